@@ -12,7 +12,10 @@ report program counters of every tensor, queue, futures, idle / exited pool thre
 tensor locks, in-flight counter, oversized flag, shutdown flag, callback log and the set of enabled
 labels; at the end the file bytes.  Schedules: `writern.cover` (transition coverage of the reachable
 state graph of small configurations: every edge is executed once, not every interleaving) + random
-walks on larger configurations.  NOTE: the controlled runs exercise the repo's *use* of the primitives
+walks on larger configurations.  `callback=None` runs are compared with the model's macro-step system `stepNC`
+(`"nc": true`); the configuration itself is re-derived by Lean from the arguments of the save (`writern.plan`,
+offsets / shards by C07's layout model, start images by the preallocation step) and compared with the one read off
+the real code, and the start image on disk is compared with the planned one.  NOTE: the controlled runs exercise the repo's *use* of the primitives
 against the harness's own reimplementation of them; the real primitives run in the OS-scheduled runs
 and in `primitive_checks`.
 
@@ -66,6 +69,16 @@ THEOREMS = [
     "IrVerif.WriterN.preallocb_sound",
     "IrVerif.WriterN.layoutb_sound",
     "IrVerif.WriterN.wfb_sound",
+    "IrVerif.WriterN.C09_plan_layout",
+    "IrVerif.WriterN.C09_plan_wf_single",
+    "IrVerif.WriterN.C09_bytes_serial_layout",
+    "IrVerif.WriterN.C09_bytes_serial_layout_c07",
+    "IrVerif.WriterN.C09_plan_wf",
+    "IrVerif.WriterN.C09_bytes_serial_layout_sharded",
+    "IrVerif.WriterN.C09_nocb_refines",
+    "IrVerif.WriterN.C09_nocb_locks_free",
+    "IrVerif.WriterN.C09_nocb_deadlock_free",
+    "IrVerif.WriterN.C09_nocb_schedule_bounded",
 ]
 ASSUMPTIONS = [
     "CONTROLLED RUNS DO NOT USE THE REAL PRIMITIVES: inside onnx_ir.external_data threading.Lock/Condition and "
@@ -92,13 +105,27 @@ ASSUMPTIONS = [
     "controls); memory a user callback or a LazyTensor cache keeps is outside; since the fix of D170 the callback "
     "runs under the tensor lock (lock order: tensor lock -> callback lock(s) -> budget), which both models follow; the "
     "'touch' cases (callback evaluates the tensor) stay in the generators as a regression probe",
-    "Layout (pairwise disjoint ranges) and Prealloc (zero start image no longer than the largest end) are hypotheses "
-    "of the byte theorems, checked by the driver for every generated configuration (layoutb/preallocb); they are not "
-    "derived from C07's theorems inside Lean; `size` is the budget reservation (for ExternalTensor the copy chunk), "
-    "not necessarily data.length",
-    "not driven by the controlled scheduler (OS-scheduled runs + oracle only): callback=None, tensors without "
-    "tofile, real ir.Tensor / ExternalTensor inputs; capacity < 1 is rejected by _validate_write_options before the "
-    "writer starts, so max(capacity, 1) cannot be reached through the entry point used here",
+    "Layout (pairwise disjoint ranges) and Prealloc (zero start image exactly as long as the last end) are no longer "
+    "hypotheses: `planCfg` (Model/WriterPlan.lean) builds the whole writer configuration from the arguments of the save "
+    "with C07's `computeInfos` / `shardRaw` / `totalSize` and the preallocation step (`open(.., 'wb')`, `truncate`), and "
+    "C09_plan_layout proves both for every input; on every run the planned configuration is compared with the one read "
+    "off the real `_align_offset` / `_shard_tensors` / executor sizes, and the start image found on disk when a parallel "
+    "writer's executor appears with the planned one; `size` is the budget reservation (for ExternalTensor the copy "
+    "chunk), not necessarily data.length; nbytes = len(tobytes()) (C04)",
+    "well-formedness (WF) of the planned configuration, the tree of pools of a sharded save included, is proved too "
+    "(C09_plan_wf, with C07_shards_partition), so C09_bytes_serial_layout / _sharded / _c07 have no hypothesis beyond "
+    "`planCfg .. = some cfg`; wfb / layoutb / preallocb are still evaluated on every generated configuration "
+    "(plan_wf / plan_layout / plan_prealloc histogram keys) as a check of the generator and of the driver",
+    "callback=None is the transition system stepNC (Model/WriterNC.lean: a step of the real thread = the model's step "
+    "followed by the model's callback steps that contain no blocking operation of the real code), proved to refine the "
+    "general model, and is driven by the controlled scheduler (every observation but the callback log, which the model "
+    "fills and the real run leaves empty); tensors without `tofile` (`file.write(tensor.tobytes())`) map to the same "
+    "`write` step and are driven by the controlled scheduler too, and so are real ir.Tensor / ExternalTensor objects "
+    "through subclasses whose `tofile` is the real one preceded by the harness's yield point (kinds irh / exth: the "
+    "real numpy / copy_file_range paths and the ExternalTensor branch of `_reservation_bytes` run under forced "
+    "schedules); plain instances of the two classes stay OS-scheduled / oracle only; capacity < 1 is rejected by "
+    "_validate_write_options before the writer starts, so max(capacity, 1) cannot be reached through the entry point "
+    "used here",
     "failures are injected as RuntimeError or as a BaseException that is not an Exception; which of several "
     "failures the caller sees is not part of the claim (C09_error_reported)",
 ]
@@ -602,39 +629,71 @@ class FTensor:
         return self.data
 
     def tofile(self, file):
-        st: RunState = self._st[0]
-        task = getattr(st.tls, "task", None)
+        return hooked_tofile(self._st, self.o, self.nbytes, file, lambda f: f.write(self.data))
+
+
+def hooked_tofile(st_ref, o, nbytes, file, write):
+    """The body every tensor object of the harness runs as its `tofile`: bookkeeping for the oracle, the yield point
+    of the controlled scheduler ("body", "write"), failure injection, then `write(file)` — the fake tensor's
+    `file.write(data)` or the REAL `ir.Tensor.tofile` / `ir.ExternalTensor.tofile` (kinds "irh" / "exth")."""
+    st: RunState = st_ref[0]
+    task = getattr(st.tls, "task", None)
+    if st.sched is not None and st.case.get("nocb"):
+        # no callback tells us which use of the object this is: the controlled thread knows its tensor
+        task = st.sched.cur().task
+    with st.meta:
+        st.progress += 1
+        st.active[o] = st.active.get(o, 0) + 1
+        if st.case.get("touch") and st.cb_objs.get(o, 0) > 0:
+            st.problems.append(("callback-evaluates-during-write",
+                                f"tensor object {o} is written while the callback of another of its uses "
+                                "is evaluating it"))
+        if st.active[o] > 1:
+            st.problems.append(("tensor-concurrent", f"tensor object {o} evaluated by two threads at once"))
+        st.active_bytes += nbytes
+        st.max_active_bytes = max(st.max_active_bytes, st.active_bytes)
+        st.tofile_calls.append(task)
+    try:
+        fails = task is not None and st.case["tensors"][task]["fails"]
+        if st.sched is not None:
+            st.sched.cur().write_failed = bool(fails)
+            st.sched.park(("body", "write"))
+        elif st.jitter is not None:
+            time.sleep(st.jitter())
+        if fails:
+            if st.case["tensors"][task].get("exc") == "base":
+                raise _Boom(f"injected write failure for tensor {task}")
+            raise RuntimeError(f"injected write failure for tensor {task}")
+        write(file)
+    finally:
+        if st.sched is not None:
+            st.sched.cur().wrote = True
         with st.meta:
             st.progress += 1
-            st.active[self.o] = st.active.get(self.o, 0) + 1
-            if st.case.get("touch") and st.cb_objs.get(self.o, 0) > 0:
-                st.problems.append(("callback-evaluates-during-write",
-                                    f"tensor object {self.o} is written while the callback of another of its uses "
-                                    "is evaluating it"))
-            if st.active[self.o] > 1:
-                st.problems.append(("tensor-concurrent", f"tensor object {self.o} evaluated by two threads at once"))
-            st.active_bytes += self.nbytes
-            st.max_active_bytes = max(st.max_active_bytes, st.active_bytes)
-            st.tofile_calls.append(task)
-        try:
-            fails = task is not None and st.case["tensors"][task]["fails"]
-            if st.sched is not None:
-                st.sched.cur().write_failed = bool(fails)
-                st.sched.park(("body", "write"))
-            elif st.jitter is not None:
-                time.sleep(st.jitter())
-            if fails:
-                if st.case["tensors"][task].get("exc") == "base":
-                    raise _Boom(f"injected write failure for tensor {task}")
-                raise RuntimeError(f"injected write failure for tensor {task}")
-            file.write(self.data)
-        finally:
-            if st.sched is not None:
-                st.sched.cur().wrote = True
-            with st.meta:
-                st.progress += 1
-                st.active[self.o] -= 1
-                st.active_bytes -= self.nbytes
+            st.active[o] -= 1
+            st.active_bytes -= nbytes
+
+
+_REAL_CLASSES = {}
+
+
+def real_classes():
+    """Subclasses of the real `ir.Tensor` / `ir.ExternalTensor` whose `tofile` is the real one wrapped in
+    `hooked_tofile`: real tensor inputs become drivable by the controlled scheduler (`_reservation_bytes` takes its
+    ExternalTensor branch, `ir.Tensor.tofile` its numpy / fileno branch)."""
+    if not _REAL_CLASSES:
+        import onnx_ir as ir
+
+        class HTensor(ir.Tensor):
+            def tofile(self, file):
+                return hooked_tofile(self._h_st, self.o, self.nbytes, file, lambda f: ir.Tensor.tofile(self, f))
+
+        class HExternal(ir.ExternalTensor):
+            def tofile(self, file):
+                return hooked_tofile(self._h_st, self.o, self.nbytes, file, lambda f: ir.ExternalTensor.tofile(self, f))
+
+        _REAL_CLASSES.update(irh=HTensor, exth=HExternal)
+    return _REAL_CLASSES
 
 
 def make_callback(st_ref):
@@ -697,9 +756,10 @@ class FTensorNoToFile:
 
 
 def build_tensors(case, st_ref, src_dir=None):
-    """One Python object per tensor *object* of the case.  kind (OS-scheduled runs only): "fake" (FTensor, default),
-    "notofile", "ir" (a real ir.Tensor over numpy), "external" (a real ExternalTensor backed by a file in src_dir:
-    `_reservation_bytes` takes its chunk branch)."""
+    """One Python object per tensor *object* of the case.  kind: "fake" (FTensor, default), "notofile" (no `tofile`),
+    "irh" / "exth" (the real ir.Tensor / ExternalTensor with a hooked `tofile`: drivable by the controlled scheduler;
+    "exth" needs src_dir), and for OS-scheduled runs only "ir" (a plain real ir.Tensor over numpy), "external" (a
+    plain real ExternalTensor backed by a file in src_dir: `_reservation_bytes` takes its chunk branch)."""
     import numpy as np
     import onnx_ir as ir
 
@@ -710,12 +770,19 @@ def build_tensors(case, st_ref, src_dir=None):
             objs.append(FTensorNoToFile(st_ref, o, d["size"]))
         elif kind == "ir":
             objs.append(ir.Tensor(np.frombuffer(obj_bytes(o, d["size"]), dtype=np.uint8).copy(), name=f"t{o}"))
-        elif kind == "external" and src_dir is not None:
+        elif kind in ("external", "exth") and src_dir is not None:
             fn = f"src{o}.bin"
             with open(os.path.join(src_dir, fn), "wb") as f:
                 f.write(b"\x07" * 3 + obj_bytes(o, d["size"]))
-            objs.append(ir.ExternalTensor(fn, 3, d["size"], ir.DataType.UINT8, shape=ir.Shape([d["size"]]),
-                                          name=f"t{o}", base_dir=src_dir))
+            cls = ir.ExternalTensor if kind == "external" else real_classes()["exth"]
+            t = cls(fn, 3, d["size"], ir.DataType.UINT8, shape=ir.Shape([d["size"]]), name=f"t{o}", base_dir=src_dir)
+            if kind == "exth":
+                t._h_st, t.o = st_ref, o
+            objs.append(t)
+        elif kind == "irh":
+            t = real_classes()["irh"](np.frombuffer(obj_bytes(o, d["size"]), dtype=np.uint8).copy(), name=f"t{o}")
+            t._h_st, t.o = st_ref, o
+            objs.append(t)
         else:
             objs.append(FTensor(st_ref, o, d["size"]))
     return [objs[t["obj"]] for t in case["tensors"]]
@@ -819,7 +886,7 @@ def general_cfg(case):
         return dict(obj=t["obj"], size=sizes[i], fails=t["fails"], cbFails=t["cbFails"], job=job, file=file,
                     off=off, data=list(obj_bytes(t["obj"], sizes[i])))
 
-    base = dict(capacity=max(case["cap"], 1), nObjs=len(case["objs"]))
+    base = dict(capacity=max(case["cap"], 1), nObjs=max(t["obj"] for t in case["tensors"]) + 1)
     if single_file(case) is not None:
         if not (W > 1 and n > 1):
             return None
@@ -857,6 +924,44 @@ def general_cfg(case):
             jobs[j] = dict(pool=0, start=g[0], sub=None)
             files.append([])
     return dict(base, tensors=tens, pools=pools, jobs=jobs, files=files)
+
+
+def plan_request(case):
+    """`writern.plan`: the arguments of the save, nothing else — Lean computes shards, offsets, pool tree and
+    start images (`planCfg`, Model/WriterPlan.lean) with C07's layout functions."""
+    sizes = case_sizes(case)
+    al, athr = case_align(case)
+    return {"m": "writern.plan",
+            "ts": [dict(obj=t["obj"], size=sizes[i], fails=t["fails"], cbFails=t["cbFails"],
+                        data=list(obj_bytes(t["obj"], sizes[i]))) for i, t in enumerate(case["tensors"])],
+            "maxShard": case["shard"] if case["mode"] == "shards" else None, "al": al, "athr": athr,
+            "workers": case["workers"], "capacity": case["cap"]}
+
+
+def check_plan(part, name, case, gcfg, plan):
+    """The configuration Lean derives from the arguments alone must be the one the harness reads off the real
+    `_align_offset` / `_shard_tensors` and the repo's executor sizes (`general_cfg`); its decidable side
+    conditions are evaluated although C09_plan_layout / C09_plan_wf prove them for all inputs (a check of the driver)."""
+    info = {"config": name, "case": case, "mode": "plan"}
+    if "err" in plan:
+        part.disagree("driver error (writern.plan): " + str(plan["err"]), info)
+        return
+    pc = plan.get("cfg")
+    kind = "none" if pc is None else ("single" if len(pc["pools"]) == 1 and pc["pools"][0]["asCompleted"]
+                                      else "nested" if len(pc["pools"]) > 1 else "sharded")
+    part.count(f"plan={kind}")
+    if pc != gcfg:
+        diff = None
+        if isinstance(pc, dict) and isinstance(gcfg, dict):
+            diff = sorted(k for k in set(pc) | set(gcfg) if pc.get(k) != gcfg.get(k))
+        part.disagree(f"configuration planned by the model (planCfg) differs from the one read off the real code in {diff}",
+                      info, model=pc, impl=gcfg)
+    if pc is not None:
+        for k in ("wf", "layout", "prealloc"):
+            part.count(f"plan_{k}={bool(plan.get(k))}")
+            if not plan.get(k):
+                part.disagree(f"planned configuration does not satisfy {k}b", info)
+        part.count("plan_one_file=" + str(plan.get("shards", 0) <= 1))
 
 
 def flat_label(lab):
@@ -915,7 +1020,7 @@ def clean_stale_dirs(max_age_s=1800):
     except OSError:
         return
     for fn in names:
-        if fn.startswith(("c09c-", "c09o-", "c09s-", "c09-hang-")):
+        if fn.startswith(("c09c-", "c09o-", "c09s-", "c09-hang-")):  # "c09c-src-" included
             p = os.path.join(root, fn)
             try:
                 if now - os.path.getmtime(p) > max_age_s:
@@ -994,8 +1099,13 @@ class Director:
         self.st = RunState(case, sched=self.sched)
         self.st_ref = [self.st]
         self.dir = tempfile.mkdtemp(prefix="c09c-", dir=_TMP_ROOT)
+        self.src = None
+        if any(d.get("kind") == "exth" for d in case["objs"]):
+            self.src = tempfile.mkdtemp(prefix="c09c-src-", dir=_TMP_ROOT)
         self.at_return = None
         self.result = None
+        self.prealloc = []  # (pool, file index, bytes found on disk when the pool's executor appeared)
+        self.seen_executors = 0
         import random
 
         self.pick_rng = random.Random(hash(json_key(case)) & 0xFFFFFFF)
@@ -1003,9 +1113,10 @@ class Director:
     # ---- the controlled main thread
     def _main_body(self):
         ct = self.sched.cur()
-        tensors = build_tensors(self.case, self.st_ref)
+        tensors = build_tensors(self.case, self.st_ref, self.src)
         try:
-            ext = call_writer(self.case, tensors, make_callback(self.st_ref), self.dir, self.case["workers"])
+            cb = None if self.case.get("nocb") else make_callback(self.st_ref)
+            ext = call_writer(self.case, tensors, cb, self.dir, self.case["workers"])
             self.result = canon_result(ext)
             ct.outcome = "returned"
         except _Abort:
@@ -1039,8 +1150,46 @@ class Director:
         tgt = op[1] if k in ("submit", "join") else op[1].ex if k == "result" else (op[1][0].ex if k == "collect" and op[1] else None)
         return t, (k if tgt is ex else None)
 
+    def _temp_files(self):
+        """basename -> bytes of the files inside the writer's temporary directories (`.{name}.xxxx/{name}`)."""
+        out = {}
+        try:
+            for d in os.listdir(self.dir):
+                dp = os.path.join(self.dir, d)
+                if d.startswith(".") and os.path.isdir(dp):
+                    for fn in os.listdir(dp):
+                        with open(os.path.join(dp, fn), "rb") as f:
+                            out[fn] = list(f.read())
+        except OSError:
+            pass
+        return out
+
+    def _note_prealloc(self):
+        """The start image: when the executor of a parallel writer appears (`_write_parallel` creates it right after
+        `open(.., "wb"); truncate(total_size)`, and the owner parks at its first submit) the data file it is going to
+        fill is read from disk.  Compared with the model's initial image (`planCfg` / `cfg.files`) in `_compare`."""
+        s = self.sched
+        if len(s.executors) == self.seen_executors:
+            return
+        new = s.executors[self.seen_executors:]
+        self.seen_executors = len(s.executors)
+        files = None
+        S = len(self.gcfg["files"])
+        for ex in new:
+            q = ex.pool
+            if q is None or q >= self.npools or not self.gcfg["pools"][q]["asCompleted"]:
+                continue
+            parent = self.gcfg["pools"][q]["parent"]
+            fidx = 0 if parent is None else parent
+            if files is None:
+                files = self._temp_files()
+            sf = single_file(self.case)
+            name = sf if sf is not None else self.ed._get_shard_filename("w.data", fidx + 1, S)
+            self.prealloc.append([q, fidx, files.get(name)])
+
     def observe(self):
         s, st = self.sched, self.st
+        self._note_prealloc()
         M = s.main
         by_pool = {ex.pool: ex for ex in s.executors if ex.pool is not None}
         futs = ["pending"] * self.njobs
@@ -1052,7 +1201,7 @@ class Director:
         for i, v in s.task_done.items():
             if 0 <= i < self.n:
                 tasks[i] = v
-        tl = [False] * len(self.case["objs"])
+        tl = [False] * self.gcfg["nObjs"]
         for w in s.workers:
             if w.task is not None and not w.exited and 0 <= w.task < self.n:
                 tasks[w.task] = _op_pc(w)
@@ -1183,8 +1332,10 @@ class Director:
                 s.kill()
             uninstall_shim(self.ed, saved)
             shutil.rmtree(self.dir, ignore_errors=True)
+            if self.src is not None:
+                shutil.rmtree(self.src, ignore_errors=True)
         return dict(labels=labels, trace=trace, status=status, files=files, outcome=s.main.outcome, result=self.result,
-                    at_return=self.at_return, problems=list(self.st.problems), log=list(self.st.log),
+                    at_return=self.at_return, prealloc=self.prealloc, problems=list(self.st.problems), log=list(self.st.log),
                     max_active_bytes=self.st.max_active_bytes, tofile_calls=list(self.st.tofile_calls))
 
 
@@ -1403,6 +1554,33 @@ def fixed_cases(thorough=False):
               tensors=[T(0), T(1), T(0), T(2)])),
     ]
     nested.append(
+        # nested writers without a callback: the inner callback lock is taken and released around nothing, the outer
+        # `_locked_callback` does not exist; two failing tensors in different shards
+        ("nested-2x2w-4t-nocb-two-failing",
+         dict(mode="shards", workers=6, cap=4, shard=7, nocb=True, objs=[dict(size=2), dict(size=5), dict(size=2)],
+              tensors=[T(0), T(1, True), T(0), T(2, True)])))
+    nested += [
+        # callback=None on the single-file writer (callback lock taken around nothing), tensors without `tofile`
+        # (`file.write(tensor.tobytes())`), one failing in `tobytes`
+        ("par-2w-3t-nocb-notofile-failing",
+         dict(mode="parallel", workers=2, cap=4, shard=None, nocb=True,
+              objs=[dict(size=3, kind="notofile"), dict(size=6, kind="notofile")],
+              tensors=[T(0), T(1, True), T(0)])),
+        # real ir.Tensor / ExternalTensor objects (hooked tofile), one shared, one failing, callback given
+        ("par-2w-3t-real-tensors-failing",
+         dict(mode="parallel", workers=2, cap=4, shard=None,
+              objs=[dict(size=3, kind="irh"), dict(size=6, kind="exth")],
+              tensors=[T(0), T(1, True), T(0)])),
+        # callback=None with serial shard drivers: no callback lock at all
+        ("shards-2w-2x2-nocb",
+         dict(mode="shards", workers=2, cap=3, shard=4, nocb=True, objs=[dict(size=2), dict(size=2, kind="notofile")],
+              tensors=[T(0), T(1), T(0), T(1)])),
+        # two failing tensors in two different shards (tensor 0 in shard 0, tensor 2 in shard 1), callback given
+        ("shards-2w-3shards-two-failing",
+         dict(mode="shards", workers=2, cap=2, shard=3, objs=[dict(size=3), dict(size=1), dict(size=2)],
+              tensors=[T(0, True), T(1), T(2, False, True), T(1)])),
+    ]
+    nested.append(
         # aligned layout (alignment=1 -> 4096): holes between the tensors
         ("par-2w-2t-aligned",
          dict(mode="parallel", workers=2, cap=4, shard=None, align=1, athr=1, objs=[dict(size=3), dict(size=2)],
@@ -1443,7 +1621,7 @@ def random_case(rng, big: bool, allow_nested=False, os_only=False):
     order = list(range(nobj)) + [rng.randrange(nobj) for _ in range(n - nobj)]
     rng.shuffle(order)
     r = rng.random()
-    nfail = 0 if r < 0.45 else (1 if r < 0.85 else 2)
+    nfail = 0 if r < 0.45 else (1 if r < 0.8 else (2 if r < 0.95 or n < 3 else 3))
     failing = set(rng.sample(range(n), nfail))
     tensors = [dict(obj=o, fails=(i in failing and rng.random() < 0.8), cbFails=False) for i, o in enumerate(order)]
     for i in failing:
@@ -1465,6 +1643,33 @@ def random_case(rng, big: bool, allow_nested=False, os_only=False):
         case["shard"] = max(1, rng.choice([total // 2, total // 3, max(s["size"] for s in objs), 2, 4, total + 1]) or 1)
         if allow_nested and rng.random() < 0.5:
             case["workers"] = rng.randint(6, 9)
+        if nfail >= 2:
+            # several failing tensors: put two of them into different shards whenever there are two shards
+            sh = shards_of(case)
+            where = {i: j for j, g in enumerate(sh) for i in g}
+            f = sorted(failing)
+            if len(sh) > 1 and len({where[i] for i in f}) == 1:
+                k = rng.choice([i for i in range(n) if where[i] != where[f[0]]])
+                a, b = tensors[f[-1]], tensors[k]
+                for key in ("fails", "cbFails", "exc"):
+                    va, vb = a.pop(key, None), b.pop(key, None)
+                    if vb is not None:
+                        a[key] = vb
+                    if va is not None:
+                        b[key] = va
+    if not os_only:
+        # driven by the controlled scheduler as well: the default `callback=None` (the model's `stepNC`) and tensor
+        # objects without `tofile` (`file.write(tensor.tobytes())`), failing ones included
+        if rng.random() < 0.2:
+            case["nocb"] = True
+            case.pop("touch", None)
+            for t in tensors:
+                if t["cbFails"]:
+                    t["cbFails"], t["fails"] = False, True
+        if rng.random() < 0.3:
+            for d in objs:
+                if rng.random() < 0.6:
+                    d["kind"] = rng.choice(["notofile", "notofile", "irh", "exth"])
     if os_only:
         # variations that the controlled scheduler does not drive: the default callback=None path (no callback
         # lock, no `_locked_callback`), tensors without `tofile`, real ir.Tensor / ExternalTensor inputs
@@ -1502,21 +1707,33 @@ def _diff_traces(part, what, info, mobs, trace, keys, r, stuck):
     return r["status"] == "ok"
 
 
-def _compare(part, name, case, gcfg, results, serial):
+def _compare(part, name, case, gcfg, results, serial, plan=True):
     """Models vs implementation on the schedules actually executed + oracle on every run.
 
     Every run is compared with the general model `IrVerif.WriterN` (`writern.run`); runs of the flat modes
     (single-file parallel writer, shard drivers with serial writers) are compared with `IrVerif.Writer`
     (`writer.run`) as well, through the projection `flat_obs` / `flat_label`."""
-    fcfg = model_cfg(case)
+    nocb = bool(case.get("nocb"))
+    # the flat model has no callback-less variant: callback=None runs are compared with the general model's
+    # macro-step system (`stepNC`, Model/WriterNC.lean; `"nc": true`)
+    fcfg = None if nocb else model_cfg(case)
+    gkeys = [k for k in GOBS_KEYS if not (nocb and k == "log")]
+    kinds = "+".join(sorted({d.get("kind", "fake") for d in case["objs"]}))
+    shards = shards_of(case) if case["mode"] == "shards" else [list(range(len(case["tensors"])))]
+    failing = [i for i, t in enumerate(case["tensors"]) if t["fails"] or t["cbFails"]]
+    failing_shards = len({j for j, g in enumerate(shards) for i in g if i in failing})
     reqs = []
     for r in results:
-        reqs.append({"m": "writern.run", "cfg": gcfg, "sched": r["labels"]})
+        reqs.append({"m": "writern.run", "cfg": gcfg, "sched": r["labels"], "nc": nocb})
         if fcfg is not None:
             reqs.append({"m": "writer.run", "cfg": fcfg, "sched": [flat_label(l) for l in r["labels"]]})
+    if plan:
+        reqs.append(plan_request(case))
     outs = lean_batch(reqs) if reqs else []
+    if plan:
+        check_plan(part, name, case, gcfg, outs[-1])
     per = 2 if fcfg is not None else 1
-    nested = fcfg is None
+    nested = model_cfg(case) is None
     for idx, r in enumerate(results):
         out = outs[per * idx]
         fout = outs[per * idx + 1] if fcfg is not None else None
@@ -1531,6 +1748,8 @@ def _compare(part, name, case, gcfg, results, serial):
             waited=waits, cancelled=any("cancelled" in o["futs"] for o in trace), steps=min(len(r["labels"]) // 10 * 10, 120),
             oversized=sum(1 for s in case_sizes(case) if s > max(case["cap"], 1)),
             shared=len(case["tensors"]) - len({t["obj"] for t in case["tensors"]}),
+            callback="none" if nocb else "given", kinds=kinds, failing=min(len(failing), 3),
+            failing_shards=failing_shards,
         )
         info = {"config": name, "case": case, "labels": r["labels"], "mode": "controlled"}
         if "err" in out or (fout is not None and "err" in fout):
@@ -1544,7 +1763,16 @@ def _compare(part, name, case, gcfg, results, serial):
                 info, model="enabled", impl=trace[-1]["enabled"] if trace else None)
         elif r["status"] == "pool-size":
             part.disagree("pool sizes differ from the model's", info)
-        ok = _diff_traces(part, "general model", info, out["obs"], trace, GOBS_KEYS, r, out["stuck"])
+        ok = _diff_traces(part, "general model", info, out["obs"], trace, gkeys, r, out["stuck"])
+        if nocb and r["log"]:
+            part.disagree("callback=None but a callback was logged", info, model=[], impl=r["log"])
+        # the start image of every file a parallel writer fills: on disk when its executor appeared vs the model's
+        for q, fidx, got in r.get("prealloc") or []:
+            part.count("prealloc_images_compared")
+            want = gcfg["files"][fidx] if fidx < len(gcfg["files"]) else None
+            if got != want:
+                part.disagree(f"start image of data file {fidx} (pool {q}) differs from the model's preallocated image",
+                              info, model=want, impl=got)
         if fout is not None:
             ok = _diff_traces(part, "flat model", info, fout["obs"], [flat_obs(o) for o in trace], OBS_KEYS, r,
                               fout["stuck"]) and ok
@@ -1604,9 +1832,9 @@ def _work(item):
                     part.disagree("implementation not terminal at the end of a complete model schedule",
                                   {"config": name, "case": case, "labels": sc})
                 if len(results) >= 100:  # bound the memory held by traces
-                    _compare(part, name, case, cfg, results, serial)
+                    _compare(part, name, case, cfg, results, serial, plan=False)
                     results = []
-            _compare(part, name, case, cfg, results, serial)
+            _compare(part, name, case, cfg, results, serial, plan=False)
         elif kind == "walk":  # random walks on random configurations
             import random
 
@@ -1616,6 +1844,7 @@ def _work(item):
                 cfg = general_cfg(case)
                 if cfg is None:
                     part.count("walk_skipped_unmodelled")
+                    check_plan(part, "random", case, None, lean_batch([plan_request(case)])[0])
                     continue
                 serial = serial_reference(case)
                 results = []
@@ -1635,6 +1864,7 @@ def _work(item):
             for _ in range(item["count"]):
                 case = random_case(rng, item["big"], allow_nested=True, os_only=True)
                 serial = serial_reference(case)
+                check_plan(part, "os", case, general_cfg(case), lean_batch([plan_request(case)])[0])
                 for rep in range(item["reps"]):
                     if _hang_seen(item):
                         return dict(part)  # a hang is already reported; further runs would only block again
@@ -1804,11 +2034,20 @@ def run(ctx: Ctx) -> None:
                 return 40000  # thorough: the failing variant is explored completely, this one in part
         return max_states
 
-    covers = lean_batch([{"m": "writern.cover", "cfg": general_cfg(c), "maxStates": cap(n)} for n, c in fixed])
-    for (name, case), cov in zip(fixed, covers):
+    covers = lean_batch([{"m": "writern.cover", "cfg": general_cfg(c), "maxStates": cap(n), "nc": bool(c.get("nocb"))}
+                         for n, c in fixed])
+    plans = lean_batch([plan_request(c) for n, c in fixed])
+    reach_2w3t = 0
+    for (name, case), cov, plan in zip(fixed, covers, plans):
         if "err" in cov:
             raise Infra("writern.cover: " + cov["err"])
         cfg = general_cfg(case)
+        check_plan(ctx, name, case, cfg, plan)
+        if not cov.get("wf", False):
+            ctx.disagree("fixed configuration is not well-formed for the model (wfb / layoutb / preallocb / ncb)",
+                         {"config": name, "case": case})
+        if name.startswith("par-2w-3t") and not cov["truncated"]:
+            reach_2w3t += cov["states"]
         scheds = cov["scheds"]
         ctx.count(f"cover_states[{name}]", cov["states"])
         ctx.count(f"cover_edges[{name}]", cov["edges"])
@@ -1820,10 +2059,11 @@ def run(ctx: Ctx) -> None:
                 f"model states is executed at least once by the real writer ({len(scheds)} complete schedules, one per "
                 f"non-tree edge / leaf of a DFS; NOT every interleaving)")
         else:
-            scheds = ctx.rng.sample(scheds, min(len(scheds), ctx.pick(2500, 20000)))
+            scheds = ctx.rng.sample(scheds, min(len(scheds), ctx.pick(1500, 20000)))
         ctx.count(f"cover_schedules[{name}]", len(scheds))
         for ch in _chunks(scheds, max(20, len(scheds) // 48 + 1)):
             items.append(dict(kind="sched", name=name, case=case, cfg=cfg, scheds=ch))
+    ctx.count("reachable_states_2w3t_configs_total", reach_2w3t)
     # 2. random walks on random configurations
     nwalk = ctx.pick(96, 480)
     for k in range(nwalk):
